@@ -36,6 +36,23 @@ def assigned_names(stmts):
     return names
 
 
+
+def norm_test(n):
+    """canonical form of a branch test: operands of and / or sorted; == / != / is / is not with sorted operands; > and >= mirrored to < and <="""
+    if isinstance(n, ast.BoolOp):
+        return (type(n.op).__name__,) + tuple(sorted((norm_test(v) for v in n.values), key=repr))
+    if isinstance(n, ast.UnaryOp) and isinstance(n.op, ast.Not):
+        return ("Not", norm_test(n.operand))
+    if isinstance(n, ast.Compare) and len(n.ops) == 1:
+        a, b, op = ast.unparse(n.left), ast.unparse(n.comparators[0]), type(n.ops[0]).__name__
+        if op in ("Eq", "NotEq", "Is", "IsNot"):
+            a, b = sorted((a, b))
+        elif op in ("Gt", "GtE"):
+            a, b, op = b, a, {"Gt": "Lt", "GtE": "LtE"}[op]
+        return (op, a, b)
+    return ast.unparse(n)
+
+
 class StmtsMixin:
     # ------------------------------------------------------------------ statements -> [(state, kind, value)]
     def run(self, stmts, st, d=0):
@@ -290,7 +307,13 @@ class StmtsMixin:
     def st_If(self, s, st, d):
         out = []
         nar = self.isinstance_narrowing(s.test)
-        opaque = getattr(self, "opaque_branches", {}).get((self.fn_stack[-1][0] if self.fn_stack else "?", ast.unparse(s.test)))
+        opaque = None
+        if getattr(self, "opaque_branches", None):
+            # a declared-opaque branch is recognised by its test up to the order of the operands of and / or / == / is and the direction of a comparison
+            fname = self.fn_stack[-1][0] if self.fn_stack else "?"
+            for (fn_, text_), ob_ in self.opaque_branches.items():
+                if fn_ == fname and norm_test(ast.parse(text_, mode="eval").body) == norm_test(s.test):
+                    opaque = ob_
         for s1, c in self.ev(s.test, st, d):
             t = truth(c, s1)
             for body, cond, branch in ((s.body, t, True), (s.orelse, z3.Not(t), False)):
